@@ -708,7 +708,7 @@ pub fn defs() -> Vec<PropDef> {
         id: "C19",
         level: "exploration",
         rule: "(serde) JSON objects generated from a grammar over a 10-key alphabet (empty key, escapes, multi-byte) with repetitions, ill-typed values, truncation, trailing garbage and arrays; deserialisation into HashMap<String,u32> runs under catch_unwind and must return a value or an error; a well-formed document must give exactly the supplied key set with each key mapped to one of its supplied values, serialise->deserialise (map and pinned reference, all hashers through a Default wrapper) must give an equal map, and a MapDeserializer with exact size hint the same key set; deserializers reporting generated size hints (absent, exact, number of distinct keys, 0, too small, too large, arbitrary up to 50000; eight wild hints up to usize::MAX for the set visitor) must give the sequential result without panicking; sixteen long inputs (33 000 - 393 219 distinct elements, every value occurring once) through JSON text, a hinted deserializer, a round trip and a 60 000-item parallel collect; the key list as an array for sets likewise; (rayon) item multisets collected / par_extend-ed (owned map, &map, pinned reference; maps and sets) on pools of 1-8 threads must give the sequential key set with each key mapped to one of the values supplied for it; non-trivial = a well-formed document that repeats a key, or a parallel run on >= 2 threads with >= 40 items and a key supplied more than once; distinct = hash of the case",
-        assumptions: &["serde_json is the only data format exercised", "rayon scheduling is not controlled: each parallel case is one sample of it"],
+        assumptions: &["serde_json and a minimal length-trusting serde format written for this check (strictser.rs) are the data formats exercised", "rayon scheduling is not controlled: each parallel case is one sample of it; the sub-checks pardup (8 200-200 000 items, mostly replacing, unique keys sprinkled in, forced leaf lengths, indexed and unindexed sources) and ser-conc / ser-first / ser-resize (a map serialised while scheduled threads update it: well-formed document, weakly consistent selection of entries, announced length = entries emitted) are reported in the classes"],
         run_shard: c19_shard,
         replay: c19_replay,
         shards: super::sixteen,
